@@ -361,7 +361,7 @@ def run(tier):
                         "history of a real 3-node cluster (scenario %s, seed %d) is not a behaviour of ConfigCluster.tla: rejected "
                         "at line %s %s; operations: %s" % (sc.kind, sc.seed, tv.get("at"), json.dumps(ln), json.dumps(sc.ops)[:900]),
                         {"seed": sc.seed, "kind": sc.kind, "rejected_at": tv.get("at"), "line": ln, "ops": sc.ops, "trace": sc.trace})
-        elif i == 0:
+        if i == 0:
             c.sample({"trace_head": sc.trace[:8]})
     # binding control: a read changed to another write's content must be rejected
     good = next((s for s in scs), None)
